@@ -849,7 +849,69 @@ pub fn run(rng: &mut Rng, thorough: bool, corpus: &[String]) -> Run {
     config_files(&mut run);
     locale_precedence(&mut run);
     dns_timeout_in_force(&mut run);
+    timing_and_modes(&mut run);
     run
+}
+
+/// C16, the validators of `build_config` that do not concern the strategy: timing ranges (every duration just inside
+/// and just outside its documented range, the round's minimum against its maximum, report cycles) and the mode /
+/// resolver / GeoIP combinations — the real `build_config` against `Builder.validateTiming` / `validateFlows` /
+/// `validateDns` / `validateGeoip`, and against the documented ranges directly (`c16-timing-range`).
+fn timing_and_modes(run: &mut Run) {
+    let ms = Duration::from_millis;
+    for rt in [9u64, 10, 50, 100, 101] {
+        for (mn, mx) in [(1000u64, 1000u64), (1001, 1000), (0, 0), (500, 1000), (1, 0)] {
+            for g in [9u64, 10, 100, 1000, 1001] {
+                for rf in [49u64, 50, 100, 1000, 1001] {
+                    for cy in [0usize, 1, 10] {
+                        let mut a = base_args();
+                        a.read_timeout = Some(ms(rt));
+                        a.min_round_duration = Some(ms(mn));
+                        a.max_round_duration = Some(ms(mx));
+                        a.grace_duration = Some(ms(g));
+                        a.tui_refresh_rate = Some(ms(rf));
+                        a.report_cycles = Some(cy);
+                        let op = format!("cfgb timing {} {} {} {} {} {cy}", rt * 1_000_000, mn * 1_000_000, mx * 1_000_000, g * 1_000_000, rf * 1_000_000);
+                        let got = guarded(|| verif_build_config(a, Sections::new().into_file(true), &privilege(), PID)).ok().map(|r| r.is_ok());
+                        let want = (10..=100).contains(&rt) && mn <= mx && (10..=1000).contains(&g) && (50..=1000).contains(&rf) && cy > 0;
+                        match got {
+                            None => run.fail("c16-build-config-panics", op.clone()),
+                            Some(ok) if ok != want => run.fail("c16-timing-range", format!(
+                                "read-timeout {rt}ms min-round {mn}ms max-round {mx}ms grace {g}ms refresh {rf}ms report-cycles {cy}: accepted={ok}, the documented ranges say {want}")),
+                            Some(_) => {}
+                        }
+                        run.op(op, match got { None => "panic", Some(true) => "ok", Some(false) => "err" }.to_string());
+                    }
+                }
+            }
+        }
+    }
+    let modes = [("tui", Mode::Tui), ("stream", Mode::Stream), ("pretty", Mode::Pretty), ("markdown", Mode::Markdown), ("csv", Mode::Csv),
+                 ("json", Mode::Json), ("dot", Mode::Dot), ("flows", Mode::Flows), ("silent", Mode::Silent)];
+    for (mname, mode) in modes {
+        for strat in ['c', 'p', 'd'] {
+            for system in [true, false] {
+                for as_info in [false, true] {
+                    for geo_off in [true, false] {
+                        for mmdb in [false, true] {
+                            let mut a = base_args();
+                            a.mode = Some(mode);
+                            a.udp = true;
+                            a.multipath_strategy = Some(match strat { 'c' => MultipathStrategyConfig::Classic, 'p' => MultipathStrategyConfig::Paris, _ => MultipathStrategyConfig::Dublin });
+                            a.dns_resolve_method = Some(if system { DnsResolveMethodConfig::System } else { DnsResolveMethodConfig::Google });
+                            a.dns_lookup_as_info = as_info;
+                            a.tui_geoip_mode = Some(if geo_off { GeoIpMode::Off } else { GeoIpMode::Short });
+                            a.geoip_mmdb_file = if mmdb { Some("/nonexistent/GeoLite2-City.mmdb".to_string()) } else { None };
+                            let op = format!("cfgb modes {mname} {strat} {} {} {} {}", u8::from(system), u8::from(as_info), u8::from(geo_off), u8::from(mmdb));
+                            let got = guarded(|| verif_build_config(a, Sections::new().into_file(true), &privilege(), PID)).ok().map(|r| r.is_ok());
+                            if got.is_none() { run.fail("c16-build-config-panics", op.clone()); }
+                            run.op(op, match got { None => "panic", Some(true) => "ok", Some(false) => "err" }.to_string());
+                        }
+                    }
+                }
+            }
+        }
+    }
 }
 
 /// C16 one step further than `TrippyConfig`: the value of `--dns-timeout` is in force in the resolver the application
